@@ -2,11 +2,11 @@
    go/consensus/cometbft/stateless/core.go:
      verifyBlock            546-597
      verifyBlockResults     599-642 (the Core method and the plain function)
-     verifyParameters       644-674
-     verifyTransactions     676-687
-     verifyTransactionProof 698-703
-     verifyNextValidators   705-720
-     stateRoot derivation   786-858
+     verifyParameters       644-678
+     verifyTransactions     680-691
+     verifyTransactionProof 702-707
+     verifyNextValidators   709-724
+     stateRoot derivation   790-862
 
    Provider responses and the light block are records of abstract fields.
    Decoders (CBOR / protobuf) are abstract: a response carries the decoded
@@ -153,10 +153,10 @@ Section Bind.
     end.
 
   (* ---- transactions ---- *)
-  (* core.go:676-687; Data.Hash() = merkle root over the transaction hashes *)
+  (* core.go:680-691; Data.Hash() = merkle root over the transaction hashes *)
   Definition verify_transactions (txs : list bytes) (lb : light_block) : bverdict :=
     if opt_bytes_eqb (tx_root H txs) (lb_data_hash lb) then BOk else BTxsHash.
-  (* core.go:698-703 *)
+  (* core.go:702-707 *)
   Definition verify_transaction_proof (p : option proof) (tx : bytes) (lb : light_block) : bverdict :=
     match verify_tx H p (lb_data_hash lb) tx with
     | MOk => BOk
@@ -173,7 +173,7 @@ Section Bind.
     vs_height : Z;
     vs_set : option (list validator * bytes);   (* None: malformed; snd = Proposer, TotalVotingPower: NOT covered *)
   }.
-  (* core.go:705-720 *)
+  (* core.go:709-724 *)
   Definition verify_next_validators (vs : validators) (lb : light_block) : bverdict :=
     if negb (vs_height vs =? wrap_i64 (lb_height lb + 1))%Z then BHeight
     else match vs_set vs with
@@ -192,15 +192,13 @@ Section Bind.
   }.
   Record parameters := mkParams {
     pm_height : Z;
-    pm_meta : option cmt_params;   (* None: proto Unmarshal failed.  Some: Unmarshal succeeded AND all four
-                                      sub-messages (Block, Evidence, Validator, Version) are present; when one
-                                      is omitted the code does not return at all: ConsensusParamsFromProto
-                                      (core.go:653) dereferences a nil pointer.  That input has no verdict in
-                                      this model; the harness reports it as finding
-                                      C19:verifyParameters-panics-on-omitted-submessage. *)
+    pm_meta : option cmt_params;   (* None: proto Unmarshal failed, or one of the four sub-messages (Block,
+                                      Evidence, Validator, Version) is omitted (core.go:653-656; before that
+                                      check was added the code dereferenced a nil pointer there: finding
+                                      C19:verifyParameters-panics-on-omitted-submessage, fixed) *)
     pm_params_cbor : bytes;        (* cbor.Marshal(params.Parameters) *)
   }.
-  (* core.go:644-674; [state_params] = cbor.Marshal of the consensus parameters
+  (* core.go:644-678; [state_params] = cbor.Marshal of the consensus parameters
      read from (verified) state at lb.Height, None when the query fails. *)
   Definition verify_parameters (pm : parameters) (state_params : option bytes) (lb : light_block) : bverdict :=
     if negb (pm_height pm =? lb_height lb)%Z then BHeight
@@ -216,7 +214,7 @@ Section Bind.
     end.
 
   (* ---- state root ---- *)
-  (* core.go:841-858: the three CBOR layers of the block metadata transaction *)
+  (* core.go:845-862: the three CBOR layers of the block metadata transaction *)
   Inductive meta_tx :=
   | MtBadSigned                 (* not a SignedTransaction *)
   | MtBadTx                     (* blob is not a Transaction *)
@@ -232,16 +230,16 @@ Section Bind.
     | MtTx true (Some h) => SrOk h
     end.
   Variable decode_meta_tx : bytes -> meta_tx.
-  (* core.go:833-839: the LAST transaction of the block *)
+  (* core.go:837-843: the LAST transaction of the block *)
   Definition state_root_from_block_txs (txs : list bytes) : sr_result :=
     match rev txs with
     | [] => SrErr BEmptyTxs
     | t :: _ => state_root_from_meta_tx (decode_meta_tx t)
     end.
-  (* core.go:811-823: state root of height h from the verified light block h+1 *)
+  (* core.go:815-827: state root of height h from the verified light block h+1 *)
   Definition state_root_from_light_block (lb_next : light_block) : sr_result :=
     if (N.of_nat (length (lb_app_hash lb_next)) =? 32) then SrOk (lb_app_hash lb_next) else SrErr BAppHash.
-  (* core.go:800-831 fetchStateRoot: light block h+1 if it verifies, otherwise
+  (* core.go:804-835 fetchStateRoot: light block h+1 if it verifies, otherwise
      the metadata transaction of the (verified) transactions of height h. *)
   Definition fetch_state_root (lb_next : option light_block) (lb : light_block) (txs : list bytes) : sr_result :=
     match match lb_next with Some n => state_root_from_light_block n | None => SrErr BOther end with
